@@ -174,6 +174,7 @@ PROPS = {
         ],
     },
     "C14": {
+        "disagreement_is_failure": True,
         "theorems": "JubakoModel.Theorems.C14",
         "harness": "c14",
         "sig_exclude": "^c16-",
